@@ -107,17 +107,23 @@ func summarize(t *chainlab.Tree) treeSummary {
 	return s
 }
 
-// loadReplay extracts the "case" object of a replay file into v.
-func loadReplay(path string, v any) error {
+// loadReplay extracts the "case" object of a replay file into v and switches
+// the run to the seed the case was generated with (cases are regenerated from
+// seed + stream).
+func loadReplay(r *mon.Run, path string, v any) error {
 	buf, err := os.ReadFile(path)
 	if err != nil {
 		return err
 	}
 	var w struct {
+		Seed int64           `json:"seed"`
 		Case json.RawMessage `json:"case"`
 	}
 	if err := json.Unmarshal(buf, &w); err != nil {
 		return err
+	}
+	if w.Seed != 0 {
+		r.Seed = w.Seed
 	}
 	return json.Unmarshal(w.Case, v)
 }
